@@ -26,7 +26,9 @@ CAPS = ['URL', 'ID', 'TOTP', 'AB1', 'HTTP2', 'IO', 'X1']
 TWINS = [('URL', 'Url'), ('FooBar', 'Foobar'), ('AB1', 'Ab1'), ('UserId', 'UserID'), ('Http2', 'HTTP2'), ('Id', 'ID')]
 KEY_WORDS = ['type', 'kind', 't', 'c', 'content', 'tag', 'data', 'value', 'class', 'func', 'case', 'default', 'in', 'is', 'object', 'val', 'var',
              'package', 'import', 'interface', 'def', 'from', 'pass', 'self', 'struct', 'go', 'range', 'let', 'enum', 'Type', 'myTag', 'my_tag',
-             '_x', 'k1', 'variant', 'payload', 'body', 'inner', 'fields', 'name']
+             '_x', 'k1', 'variant', 'payload', 'body', 'inner', 'fields', 'name',
+             # camel / Pascal keys that contain a configured Go acronym in its word form (seeded C02_c: the acronym pass applied to the KEY)
+             'eventId', 'callbackUrl', 'clientIp', 'Id', 'UrlKind', 'ipTag']
 RENAME_WORDS = ['fooBar', 'foo_bar', 'foo-bar', 'FooBar', 'FOO_BAR', 'type', 'class', 'default', 'a', 'A', 'x-1', '_u', 'kebab-case-name', 'v2',
                 'Http2', 'http_2', 'URL', 'url']
 CFGS = {
